@@ -144,7 +144,7 @@ fn same_tokens(a_src: &str, a: &Tokens, b_src: &str) -> bool {
 
 /// Record, for every corpus program and a rotating subset of the TLC-generated gap patterns,
 /// the flag tokens F (from the one-token-per-line layout) and the lines reported on the re-laid-out text.
-pub fn record(corpus_dir: &str, patterns_file: &str, mode: &str, per_program: usize, trace: &mut NdjsonWriter, texts: &mut NdjsonWriter, out: &mut Outcome) {
+pub fn record(corpus_dir: &str, patterns_file: &str, mode: &str, per_program: usize, trace: &mut NdjsonWriter, texts: &mut NdjsonWriter, detect: &mut NdjsonWriter, out: &mut Outcome) {
     let pats: Vec<Vec<Vec<u8>>> = read_ndjson(patterns_file)
         .iter()
         .map(|r| r["pattern"].as_array().unwrap().iter().map(|g| as_i64s(g).iter().map(|x| *x as u8).collect()).collect())
@@ -238,6 +238,12 @@ pub fn record(corpus_dir: &str, patterns_file: &str, mode: &str, per_program: us
                 let inj = gaps.iter().enumerate().all(|(j, g)| j == 0 || j == n || g.iter().map(|c| atom_lf(*c)).sum::<usize>() >= 1);
                 trace.push(&json!({"k": "layout", "src": name, "variant": vname, "n": n, "inj": inj, "gaps": gaps, "dets": drecs}));
                 texts.push(&json!({"src": name, "variant": vname, "text": text}));
+                // constructs that span several lines in this layout: the reported lines must still be lines on which
+                // a matching construct BEGINS (Patterns.tla on the projected tree of the re-laid-out text)
+                if !injective && i < 6 {
+                    let mut o2 = Outcome::new();
+                    crate::detect::record_program(&format!("relayout:{}:{}", name, i), &text, None, detect, &mut o2);
+                }
                 if out.samples.len() < 2 && i == 3 {
                     out.sample(json!({"src": name, "pattern": pattern, "first_gaps": &gaps[..gaps.len().min(6)]}));
                 }
